@@ -144,17 +144,18 @@ def h_status_line(line: str):
 
 
 def pre_total(f: int, s: str) -> bool:
-    return 0 <= f <= 3 and len(s) <= (P.L0 if f == 0 else P.L) and in_shard(f)
+    return (f == 0 or f == 2 or f == 3) and len(s) <= (P.L0 if f == 0 else P.L) and in_shard(f)
 
 
-@harness(pre=pre_total, quick=dict(L=3, L0=2, timeout=450, reach_timeout=120), thorough=dict(L=4, L0=4, timeout=1500, reach_timeout=200),
+@harness(pre=pre_total, quick=dict(L=3, L0=2, timeout=300, reach_timeout=120), thorough=dict(L=4, L0=4, timeout=1500, reach_timeout=200),
          nshards=4, reach=["quoted_cookie", "with_port", "param"],
-         units=["httputil._parse_header", "httputil._parseparam", "httputil.parse_cookie",
+         units=["httputil._parse_header", "httputil._parseparam",
                 "httputil._unquote_cookie", "httputil.split_host_and_port"],
          stubs=[], outside=["inputs longer than L code points (e.g. ports of more than 4300 digits, where "
                             "int() raises ValueError)"])
 def h_total(f: int, s: str):
-    """totality: none of the four parsers raises, and basic shape of the results"""
+    """totality: none of the parsers raises, and basic shape of the results (shard 1 is empty: parse_cookie
+    stores symbolic strings as dict keys, which realises them - it has its own pooled harness h_cookie)"""
     if f == 0:
         key, pd = httputil._parse_header(s)
         assert isinstance(key, str) and isinstance(pd, dict)
@@ -178,6 +179,39 @@ def h_total(f: int, s: str):
         else:
             reached("with_port")
             assert port >= 0 and s.startswith(host + ":")
+
+
+COOKIE_ALPH = [";", "=", " ", "\t", '"', "\\", "a", "0", "7", "\xe9", "\n", "\0", "\u3000", ",", "\x85"]
+
+
+def pre_cookie(cs: List[int]) -> bool:
+    if len(cs) > P.L:
+        return False
+    for c in cs:
+        if not 0 <= c < len(COOKIE_ALPH):
+            return False
+    return in_shard(cs[0] if len(cs) > 0 else 0)
+
+
+@harness(pre=pre_cookie, quick=dict(L=3, timeout=200), thorough=dict(L=4, timeout=1200), nshards=dict(quick=3, thorough=15),
+         reach=["quoted", "named"],
+         units=["httputil.parse_cookie", "httputil._unquote_cookie", "httputil._unquote_replace"],
+         stubs=["the header is built from symbolic indices into %d class representatives (separators, ASCII and Unicode "
+                "white space, quote, backslash, octal digits, NUL, non-ASCII): parse_cookie uses the pieces as dict keys, "
+                "which realises symbolic strings" % len(COOKIE_ALPH)],
+         outside=["cookie headers longer than L characters or with other characters"])
+def h_cookie(cs: List[int]):
+    s = "".join([COOKIE_ALPH[c] for c in cs])
+    d = httputil.parse_cookie(s)
+    assert isinstance(d, dict)
+    for k, v in d.items():
+        assert isinstance(k, str) and isinstance(v, str)
+        assert k == k.strip(), "cookie name keeps surrounding white space: %r" % k
+        if k:
+            reached("named")
+    if len(s) >= 2 and s[0] == '"' and s[-1] == '"' and ";" not in s and "=" not in s:
+        reached("quoted")
+        assert list(d) == [""] and len(d[""]) <= len(s) - 2
 
 
 def _is_token(s):
